@@ -1,1 +1,244 @@
-From HV Require Import Common.Generic C17.Model.
+(** C17 property theorems: statements only; proofs are in Lemmas.v.
+    Index shuffles (fftshift / ifftshift) have no carrier: the definitions proved about are literally the
+    ones the correspondence check executes.  Numeric parts are stated at the R instance ([RO], with the real
+    pi / sqrt / cos / sin as the transcendental oracles and an arbitrary pair [F], [Finv] as the DFT oracle);
+    the last block proves that what the check executes (Q instance; closed real form fed to Coq-Interval)
+    computes the same functions. *)
+From Coq Require Import ZArith List Bool Arith Lia Reals Lra QArith Qreals.
+From HV Require Import Common.Generic C17.Model C17.Lemmas C17.Findings.
+Import ListNotations.
+Local Open Scope R_scope.
+
+(** ** the shift pair, every length / every shape *)
+Theorem ifftshift_fftshift : forall (A : Type) (l : list A), ifftshift1 (fftshift1 l) = l.
+Proof. exact @ifftshift1_fftshift1. Qed.
+Print Assumptions ifftshift_fftshift.
+
+Theorem fftshift_ifftshift : forall (A : Type) (l : list A), fftshift1 (ifftshift1 l) = l.
+Proof. exact @fftshift1_ifftshift1. Qed.
+Print Assumptions fftshift_ifftshift.
+
+(* any number of rows, any row lengths (even / odd / non-square / ragged) *)
+Theorem ifftshift_fftshift_2d : forall (A : Type) (x : list (list A)), ifftshift2 (fftshift2 x) = x.
+Proof. exact @ifftshift2_fftshift2. Qed.
+Print Assumptions ifftshift_fftshift_2d.
+
+Theorem fftshift_ifftshift_2d : forall (A : Type) (x : list (list A)), fftshift2 (ifftshift2 x) = x.
+Proof. exact @fftshift2_ifftshift2. Qed.
+Print Assumptions fftshift_ifftshift_2d.
+
+(* numpy's documented index map: element i goes to (i + n/2) mod n; inverse: (i + ceil(n/2)) mod n *)
+Theorem fftshift_index_map : forall (A : Type) (l : list A) i d, (i < length l)%nat ->
+  nth (fftshift_idx (length l) i) (fftshift1 l) d = nth i l d /\
+  nth (ifftshift_idx (length l) i) (ifftshift1 l) d = nth i l d.
+Proof. intros. split; [apply fftshift1_moves|apply ifftshift1_moves]; assumption. Qed.
+Print Assumptions fftshift_index_map.
+
+Theorem fftshift_index_map_2d : forall (A : Type) (x : list (list A)) i j d,
+  (i < length x)%nat -> (j < length (nth i x []))%nat ->
+  nth (fftshift_idx (length (nth i x [])) j) (nth (fftshift_idx (length x) i) (fftshift2 x) []) d
+  = nth j (nth i x []) d.
+Proof. exact @fftshift2_moves. Qed.
+Print Assumptions fftshift_index_map_2d.
+
+(** ** fft / ifft are inverses, given that the unshifted oracle pair is (any carrier: R, the executed Q, Z labels) *)
+Theorem ifft_fft_id : forall (T : Type) (F Finv : img T -> img T),
+  (forall x, Finv (F x) = x) -> forall x, ifft_m Finv (fft_m F x) = x.
+Proof. exact @ifft_fft_id_poly. Qed.
+Print Assumptions ifft_fft_id.
+
+Theorem fft_ifft_id : forall (T : Type) (F Finv : img T -> img T),
+  (forall y, F (Finv y) = y) -> forall y, fft_m F (ifft_m Finv y) = y.
+Proof. exact @fft_ifft_id_poly. Qed.
+Print Assumptions fft_ifft_id.
+
+(** ** coordinates: for uniformly spaced pixels (origin c0, spacing s <> 0, n >= 2) the round trip returns the
+    coordinates relative to the first pixel (ift_coord always starts at 0) *)
+Theorem coords_roundtrip : forall c0 s n, (2 <= n)%nat -> s <> 0 ->
+  ift_coord RO (ft_coord RO (ucoord c0 s n)) = map (fun x => x - c0) (ucoord c0 s n).
+Proof. exact coords_roundtrip_general. Qed.
+Print Assumptions coords_roundtrip.
+
+Theorem coords_roundtrip_origin0 : forall s n, (2 <= n)%nat -> s <> 0 ->
+  ift_coord RO (ft_coord RO (ucoord 0 s n)) = ucoord 0 s n.
+Proof. intros. apply Lemmas.coords_roundtrip_origin0; assumption. Qed.
+Print Assumptions coords_roundtrip_origin0.
+
+Theorem ft_coord_symmetric : forall c0 s n, (2 <= n)%nat -> s <> 0 ->
+  ft_coord RO (ucoord c0 s n) = ucoord (- / (2 * s)) (/ (s * IZR (Z.of_nat n - 1))) n.
+Proof. exact ft_coord_closed. Qed.
+Print Assumptions ft_coord_symmetric.
+
+(** ** transfer function, pointwise at every frequency (m, n); [evan0 = false] is the code as it is,
+    [true] the masked variant its comment describes: the laws hold for both *)
+Theorem G_additive : forall evan0 lam cfsp d1 d2 m n,
+  cmul RO (Gptr evan0 lam cfsp None d1 m n) (Gptr evan0 lam cfsp None d2 m n)
+  = Gptr evan0 lam cfsp None (d1 + d2) m n.
+Proof. exact Gpt_additive. Qed.
+Print Assumptions G_additive.
+
+Theorem G_inverse : forall evan0 lam cfsp d m n, evan0 = false \/ 0 <= root RO lam m n ->
+  cmul RO (Gptr evan0 lam cfsp None d m n) (Gptr evan0 lam cfsp None (- d) m n) = c1 RO.
+Proof. intros. apply Gpt_inverse. apply passes_of. assumption. Qed.
+Print Assumptions G_inverse.
+
+Theorem G_norm_le_1 : forall evan0 lam cfsp d m n, cnorm2 RO (Gptr evan0 lam cfsp None d m n) <= 1.
+Proof. exact Gpt_norm_le_1. Qed.
+Print Assumptions G_norm_le_1.
+
+Theorem cfsp_power : forall evan0 lam k d m n,
+  Gptr evan0 lam (S k) None d m n = Gptr evan0 lam 0 None d m n.
+Proof. exact cfsp_power_lemma. Qed.
+Print Assumptions cfsp_power.
+
+Theorem gradient_filter_is_difference : forall evan0 lam f d m n,
+  G1r evan0 lam (Some f) d m n = csub RO (G1r evan0 lam None d m n) (G1r evan0 lam None (d + f) m n).
+Proof. exact G1_gf. Qed.
+Print Assumptions gradient_filter_is_difference.
+
+(** ** propagate.  [grid evan0] is the transfer-function grid of Model.v at R *)
+Definition grid (evan0 : bool) := fun lam cfsp gf xs ys d => Ggridr evan0 lam cfsp gf xs ys d.
+
+Theorem propagate_zero : forall (F Finv : img R -> img R) (X : Type) gridf (im : image R X) mi wl cfsp gf,
+  propagate RO F Finv gridf im 0 mi wl cfsp gf = Some im.
+Proof. intros. apply propagate_zero_lemma. Qed.
+Print Assumptions propagate_zero.
+
+Theorem propagate_additive : forall (F Finv : img R -> img R) (X : Type) evan0, (forall y, F (Finv y) = y) ->
+  forall (im im1 : image R X) d1 d2 mi wl cfsp, d1 <> 0 -> d2 <> 0 -> d1 + d2 <> 0 ->
+  propagate RO F Finv (grid evan0) im d1 mi wl cfsp None = Some im1 ->
+  propagate RO F Finv (grid evan0) im1 d2 mi wl cfsp None
+  = propagate RO F Finv (grid evan0) im (d1 + d2) mi wl cfsp None.
+Proof. intros F Finv X evan0. exact (propagate_additive_lemma F Finv evan0). Qed.
+Print Assumptions propagate_additive.
+
+(* d then -d: with the code's clamp (evan0 = false) always; for the masked variant when no frequency is evanescent *)
+Theorem propagate_inverse : forall (F Finv : img R -> img R) (X : Type) evan0,
+  (forall x, Finv (F x) = x) -> (forall y, F (Finv y) = y) ->
+  forall xs ys v (m : meta R X) v1 m1 d mi wl cfsp, d <> 0 ->
+  rect (length xs) (length ys) (F v) ->
+  (evan0 = false \/ forall lam, med_wavelen RO (update_meta mi wl m) = Some lam -> no_evanescent lam xs ys) ->
+  propagate RO F Finv (grid evan0) (xs, ys, v, m) d mi wl cfsp None = Some (xs, ys, v1, m1) ->
+  propagate RO F Finv (grid evan0) (xs, ys, v1, m1) (- d) mi wl cfsp None = Some (xs, ys, v, m1).
+Proof. intros F Finv X evan0. exact (propagate_inverse_lemma F Finv evan0). Qed.
+Print Assumptions propagate_inverse.
+
+(* "when the sampling is coarse enough": pixel spacings with lam^2 (1/(2 sx)^2 + 1/(2 sy)^2) <= 1 leave no
+   evanescent frequency on the grid (so propagate_inverse applies to the masked variant as well) *)
+Theorem coarse_sampling_no_evanescent : forall lam cx sx nx cy sy ny,
+  (2 <= nx)%nat -> (2 <= ny)%nat -> sx <> 0 -> sy <> 0 ->
+  lam * lam * (/ (4 * (sx * sx)) + / (4 * (sy * sy))) <= 1 ->
+  no_evanescent lam (ucoord cx sx nx) (ucoord cy sy ny).
+Proof. exact coarse_no_evanescent. Qed.
+Print Assumptions coarse_sampling_no_evanescent.
+
+(* linear in the image for ANY multiplier grid g of the image's shape, given a linear oracle pair *)
+Theorem propagate_linear : forall (F Finv : img R -> img R) r c,
+  (forall x y, F (img_add RO x y) = img_add RO (F x) (F y)) ->
+  (forall x y, rect r c x -> rect r c y -> Finv (img_add RO x y) = img_add RO (Finv x) (Finv y)) ->
+  (forall k x, F (img_scale RO k x) = img_scale RO k (F x)) ->
+  (forall k y, Finv (img_scale RO k y) = img_scale RO k (Finv y)) ->
+  forall g a b ka kb, rect r c (F a) -> rect r c (F b) -> rect r c g ->
+  prop1 RO F Finv g (img_add RO (img_scale RO ka a) (img_scale RO kb b))
+  = img_add RO (img_scale RO ka (prop1 RO F Finv g a)) (img_scale RO kb (prop1 RO F Finv g b)).
+Proof. exact propagate_linear_lemma. Qed.
+Print Assumptions propagate_linear.
+
+(* total energy never increases; Parseval is assumed only at the two images where it is used *)
+Theorem energy_nonincreasing : forall (F Finv : img R -> img R) evan0 lam cfsp xs ys d v kap, 0 < kap ->
+  let g := Ggridr evan0 lam cfsp None xs ys d in
+  energy RO (F v) = kap * energy RO v ->
+  kap * energy RO (Finv (ifftshift2 (pmul RO (fft_m F v) g))) = energy RO (ifftshift2 (pmul RO (fft_m F v) g)) ->
+  energy RO (prop1 RO F Finv g v) <= energy RO v.
+Proof. intros. apply (energy_nonincreasing_lemma F Finv g v kap); try assumption. apply Ggrid_bounded1. Qed.
+Print Assumptions energy_nonincreasing.
+
+Theorem list_is_stack : forall (F Finv : img R -> img R) (X : Type) gridf xs ys v (m : meta R X) z0 ds mi wl cfsp gf
+  xs' ys' sl m',
+  propagate_list RO F Finv gridf (xs, ys, v, m) z0 ds mi wl cfsp gf = Some (xs', ys', sl, m') ->
+  exists Vf : R -> img R,
+    (forall d, d <> 0 -> propagate RO F Finv gridf (xs, ys, v, m) d mi wl cfsp gf = Some (xs', ys', Vf d, m')) /\
+    sl = (if existsb (fun d => Reqb d 0) ds then [(z0, v)] else [])
+         ++ map (fun d => (d, Vf d)) (filter (fun d => negb (Reqb d 0)) ds) /\
+    xs' = xs /\ ys' = ys /\ m' = update_meta mi wl m.
+Proof. intros F Finv X. exact (list_is_stack_lemma F Finv). Qed.
+Print Assumptions list_is_stack.
+
+Theorem list_missing_iff_scalar_missing : forall (F Finv : img R -> img R) (X : Type) gridf xs ys v (m : meta R X)
+  z0 ds mi wl cfsp gf,
+  propagate_list RO F Finv gridf (xs, ys, v, m) z0 ds mi wl cfsp gf = None <->
+  (forall d, d <> 0 -> propagate RO F Finv gridf (xs, ys, v, m) d mi wl cfsp gf = None).
+Proof. intros F Finv X. exact (list_missing_lemma F Finv). Qed.
+Print Assumptions list_missing_iff_scalar_missing.
+
+(* pixel coordinates are kept, metadata = update_metadata(...) of the input's, everything else (name, other attrs) untouched *)
+Theorem metadata_kept : forall (F Finv : img R -> img R) (X : Type) gridf xs ys v (m : meta R X) d mi wl cfsp gf
+  xs' ys' v' m', d <> 0 ->
+  propagate RO F Finv gridf (xs, ys, v, m) d mi wl cfsp gf = Some (xs', ys', v', m') ->
+  xs' = xs /\ ys' = ys /\ m' = update_meta mi wl m /\ snd m' = snd m.
+Proof. intros F Finv X. exact (propagate_keeps_lemma F Finv). Qed.
+Print Assumptions metadata_kept.
+
+(** ** what the check executes = what the theorems are about *)
+Theorem closed_form_is_model : forall lam cfsp gf d m n,
+  Gpt RO PI sqrt cos sin false lam cfsp gf d m n = GptR lam cfsp gf d m n.
+Proof. exact Gpt_closed_lemma. Qed.
+Print Assumptions closed_form_is_model.
+
+Theorem prop1_agrees_on_Q : forall (FQ FinvQ : img Q -> img Q) (FR FinvR : img R -> img R),
+  (forall x, imgQ2R (FQ x) = FR (imgQ2R x)) -> (forall y, imgQ2R (FinvQ y) = FinvR (imgQ2R y)) ->
+  forall g v, imgQ2R (prop1 QO FQ FinvQ g v) = prop1 RO FR FinvR (imgQ2R g) (imgQ2R v).
+Proof. exact prop1_Q_R. Qed.
+Print Assumptions prop1_agrees_on_Q.
+
+Theorem propagate_agrees_on_Q : forall (X : Type) (FQ FinvQ : img Q -> img Q) (FR FinvR : img R -> img R) gQ gR,
+  (forall x, imgQ2R (FQ x) = FR (imgQ2R x)) -> (forall y, imgQ2R (FinvQ y) = FinvR (imgQ2R y)) ->
+  (forall lam cfsp gf xs ys d, imgQ2R (gQ lam cfsp gf xs ys d)
+                               = gR (Q2R lam) cfsp (optQ2R gf) (map Q2R xs) (map Q2R ys) (Q2R d)) ->
+  forall (im : image Q X) d mi wl cfsp gf,
+  option_map imageQ2R (propagate QO FQ FinvQ gQ im d mi wl cfsp gf)
+  = propagate RO FR FinvR gR (imageQ2R im) (Q2R d) (optQ2R mi) (optQ2R wl) cfsp (optQ2R gf).
+Proof. exact @propagate_Q_R. Qed.
+Print Assumptions propagate_agrees_on_Q.
+
+Theorem propagate_list_agrees_on_Q : forall (X : Type) (FQ FinvQ : img Q -> img Q) (FR FinvR : img R -> img R) gQ gR,
+  (forall x, imgQ2R (FQ x) = FR (imgQ2R x)) -> (forall y, imgQ2R (FinvQ y) = FinvR (imgQ2R y)) ->
+  (forall lam cfsp gf xs ys d, imgQ2R (gQ lam cfsp gf xs ys d)
+                               = gR (Q2R lam) cfsp (optQ2R gf) (map Q2R xs) (map Q2R ys) (Q2R d)) ->
+  forall (im : image Q X) z0 ds mi wl cfsp gf,
+  option_map stackQ2R (propagate_list QO FQ FinvQ gQ im z0 ds mi wl cfsp gf)
+  = propagate_list RO FR FinvR gR (imageQ2R im) (Q2R z0) (map Q2R ds) (optQ2R mi) (optQ2R wl) cfsp (optQ2R gf).
+Proof. exact @propagate_list_Q_R. Qed.
+Print Assumptions propagate_list_agrees_on_Q.
+
+Theorem coords_agree_on_Q : forall c,
+  map Q2R (ft_coord QO c) = ft_coord RO (map Q2R c) /\ map Q2R (ift_coord QO c) = ift_coord RO (map Q2R c).
+Proof. intros. split; [apply ft_coord_Q_R|apply ift_coord_Q_R]. Qed.
+Print Assumptions coords_agree_on_Q.
+
+(** ** non-vacuity: the hypotheses used above are satisfiable by concrete non-trivial objects *)
+Example hyps_satisfiable :
+  (* an inverse, linear, energy-preserving (kap = 1) oracle pair with rectangular output exists *)
+  (let F := fun x : img R => x in
+   (forall x, F (F x) = x) /\ (forall x y, F (img_add RO x y) = img_add RO (F x) (F y)) /\
+   (forall k x, F (img_scale RO k x) = img_scale RO k (F x)) /\
+   rect 2 3 (F [[(1, 0); (2, 0); (3, 0)]; [(0, 1); (0, 2); (0, 3)]]) /\
+   (forall v, energy RO (F v) = 1 * energy RO v)) /\
+  (* a sampling with no evanescent frequency exists (spacing 1, wavelength 1/2) *)
+  no_evanescent (1 / 2) (ucoord 0 1 3) (ucoord 5 1 2) /\
+  (* the executed Q instance: 3-pixel coordinate round trip and a propagate call that returns Some *)
+  map Qred (ift_coord QO (ft_coord QO [0; 1 # 2; 1]%Q)) = [0; 1 # 2; 1]%Q /\
+  (exists r, propagate_list QO (fun x => x) (fun x => x) (fun _ _ _ _ _ _ => [[(0, 1)]])%Q
+               ([0; 1]%Q, [0]%Q, [[(1, 0)]]%Q, (Some 1%Q, Some 1%Q, tt)) 0%Q [2; 0; 3]%Q None None 0%nat None = Some r
+             /\ length (snd (fst r)) = 3%nat).
+Proof.
+  split; [|split; [|split]].
+  - cbv zeta. repeat split; try reflexivity.
+    + repeat constructor.
+    + intros; ring.
+  - intros m n Hm Hn. rewrite ft_coord_closed in Hm, Hn by (lia || lra).
+    unfold ucoord in Hm, Hn; simpl in Hm, Hn. unfold root; cbn.
+    destruct Hm as [<-|[<-|[<-|[]]]]; destruct Hn as [<-|[<-|[]]]; lra.
+  - vm_compute. reflexivity.
+  - eexists. split; [vm_compute; reflexivity|reflexivity].
+Qed.
